@@ -420,6 +420,8 @@ pub struct StepReport {
     pub issues: Vec<(String, String, String)>, // (prop, rule, msg)
     pub parent_changed: bool,
     pub doc: Option<String>,
+    /// quota polls seen when the step had finished (counted from the start of the case)
+    pub polls_after: u64,
 }
 
 #[derive(Clone, Debug, Default)]
@@ -430,6 +432,8 @@ pub struct W2Out {
     pub quota_polls: u64,
     pub routes_max: usize,
     pub init_doc: Option<String>,
+    /// quota polls seen when the initial individual was built
+    pub init_polls: u64,
     pub cache: crate::oracle::cache::CacheStats,
     pub loop_cache_issues: Vec<(String, String, String)>,
     pub insertions_observed: u64,
@@ -571,6 +575,8 @@ pub fn execute(case: &W2Case, cache_checks: bool, per_insertion: bool) -> crate:
             out.init_issues = init_issues
         });
         refinement_ctx.add_solution(current.deep_copy());
+        let init_polls = quota.as_ref().map(|q| q.polls.load(Ordering::SeqCst)).unwrap_or(0);
+        sys::monitor(|| out.init_polls = init_polls);
 
         for op in &case.script {
             let before = sys::monitor(|| digest_ctx(&current));
@@ -589,8 +595,9 @@ pub fn execute(case: &W2Case, cache_checks: bool, per_insertion: bool) -> crate:
                 _ => (Some(make_search(name, &problem, &env, &mut p).search(&refinement_ctx, &current)), false),
             };
             let after = sys::monitor(|| digest_ctx(&current));
+            let polls_now = quota.as_ref().map(|q| q.polls.load(Ordering::SeqCst)).unwrap_or(0);
             let report = sys::monitor(|| {
-                let mut r = StepReport { op: op.as_str().to_string(), parent_changed: before != after, ..Default::default() };
+                let mut r = StepReport { op: op.as_str().to_string(), parent_changed: before != after, polls_after: polls_now, ..Default::default() };
                 if let Some(child) = child.as_ref() {
                     r.changed = digest_ctx(child) != before;
                     r.issues = check_inv(child, pending_allowed).into_iter().map(|i| ("C04".to_string(), i.rule.to_string(), i.msg)).collect();
@@ -598,6 +605,14 @@ pub fn execute(case: &W2Case, cache_checks: bool, per_insertion: bool) -> crate:
                     let bad = r.issues.iter().any(|(p, ru, _)| p == "C01" || p == "C04" || (p == "C02" && C02_RULES_IN_C04.contains(&ru.as_str())));
                     if (bad && std::env::var_os("VSIM_DUMP").is_some()) || std::env::var_os("VSIM_DUMP_ALL").is_some() {
                         r.doc = write_ctx_with(child, pending_allowed).ok();
+                    }
+                    if bad && std::env::var_os("VSIM_DUMP").is_some() {
+                        // triage aid: the parent the step started from
+                        let brief = |c: &InsertionContext| -> String {
+                            c.solution.routes.iter().map(|rc| format!("{}:{}", vrp_core::models::problem::VehicleIdDimension::get_vehicle_id(&rc.route().actor.vehicle.dimens).cloned().unwrap_or_default(), rc.route().tour.all_activities().filter_map(|a| a.retrieve_job().map(|j| job_key(&j))).collect::<Vec<_>>().join(" "))).collect::<Vec<_>>().join(" | ")
+                        };
+                        crate::say!("PARENT of bad step {}: {} || required {:?} unassigned {:?}", op, brief(&current), current.solution.required.iter().map(job_key).collect::<Vec<_>>(), current.solution.unassigned.keys().map(job_key).collect::<Vec<_>>());
+                        crate::say!("CHILD  of bad step {}: {} || required {:?} unassigned {:?}", op, brief(child), child.solution.required.iter().map(job_key).collect::<Vec<_>>(), child.solution.unassigned.keys().map(job_key).collect::<Vec<_>>());
                     }
                 }
                 r
@@ -712,17 +727,81 @@ pub fn make_case(seed: u64, tier: Tier) -> (W2Case, gen::problem::Features) {
 }
 
 impl W2Scenario {
+    /// One case; one case in five is an *interruption enumeration*: the script is executed once with a quota which counts
+    /// its polls and never fires, then the identical (deterministic) execution is repeated with the quota turning true at
+    /// chosen polls of the steps which polled it - the first, the last (the point right after the step's last piece of
+    /// work) and one in between, at most 8 re-executions. Every re-execution is judged like any other case.
     fn record(&self, case: &W2Case, features: Option<&gen::problem::Features>) -> CaseRecord {
+        if case.quota.is_some() || case.spec.sched_seed % 5 != 1 {
+            return self.record_one(case, features).0;
+        }
+        let mut base = case.clone();
+        base.quota = Some(u64::MAX);
+        let (mut rec, bounds) = self.record_one(&base, features);
+        if !rec.issues.is_empty() || rec.discarded.is_some() {
+            return rec;
+        }
+        let mut p = Prng::derive(case.spec.sched_seed, "interruption-points");
+        let mut points: Vec<(u64, usize)> = vec![];
+        for (i, w) in bounds.windows(2).enumerate() {
+            let (a, b) = (w[0], w[1]);
+            if b > a {
+                points.push((b - 1, i));
+                if b - a > 1 {
+                    points.push((a, i));
+                }
+                if b - a > 2 {
+                    points.push((p.range(a as i64 + 1, b as i64 - 2) as u64, i));
+                }
+            }
+        }
+        if points.len() > 8 {
+            p.shuffle(&mut points);
+            points.truncate(8);
+            points.sort();
+        }
+        rec.count("faults.interruption_enumeration_cases", 1);
+        rec.count("faults.interruption_points_enumerated", points.len() as u64);
+        for (k, step) in points {
+            let mut faulted = case.clone();
+            faulted.quota = Some(k);
+            let (r2, _) = self.record_one(&faulted, features);
+            rec.evaluations = rec.evaluations.max(1) + 1;
+            rec.log_hash ^= r2.log_hash.rotate_left((k % 61) as u32 + 1);
+            rec.sim_ns += r2.sim_ns;
+            rec.taint |= r2.taint;
+            for mut i in r2.issues {
+                i.msg = format!("quota turns true at poll {k} (inside script step {step}): {}", i.msg);
+                i.sig = if i.sig.is_empty() { "interrupted".to_string() } else { format!("{}|interrupted", i.sig) };
+                rec.issues.push(i);
+            }
+            if rec.issues.len() > 6 {
+                break;
+            }
+        }
+        rec
+    }
+
+    fn record_one(&self, case: &W2Case, features: Option<&gen::problem::Features>) -> (CaseRecord, Vec<u64>) {
         let cache_checks = self.prop == "C05";
         let per_insertion = cache_checks && (case.spec.sched_seed % 4 == 0);
         let out = execute(case, cache_checks, per_insertion);
+        let bounds: Vec<u64> = match &out.result {
+            Ok(o) => std::iter::once(o.init_polls).chain(o.steps.iter().map(|s| s.polls_after)).collect(),
+            Err(_) => vec![],
+        };
+        let rec = self.record_outcome(case, features, out, cache_checks, per_insertion);
+        (rec, bounds)
+    }
+
+    fn record_outcome(&self, case: &W2Case, features: Option<&gen::problem::Features>, out: crate::kernel::run::RunOutcome<W2Out>, cache_checks: bool, per_insertion: bool) -> CaseRecord {
         let mut rec = CaseRecord { log_hash: out.log_hash, sim_ns: out.sim_ns, ..Default::default() };
         if out.arena_live != 0 {
             rec.taint = true;
             rec.count("harness.arena_leak_runs", 1);
         }
         let mut sig_base = vec![];
-        let nonmetric = features.map(|f| f.nonmetric).unwrap_or(false);
+        let nonmetric = features.map(|f| f.nonmetric).unwrap_or_else(|| !crate::scen::w1::is_metric(&case.matrices));
         if nonmetric {
             sig_base.push("nonmetric".to_string());
         }
@@ -748,7 +827,7 @@ impl W2Scenario {
         rec.count("scheduler.steals", out.sched.steals);
         rec.count("scheduler.pool_enters", out.sched.pool_enters);
         rec.count("faults.clock_stalls_fired", out.stalls_fired);
-        rec.count("faults.quota_configured", case.quota.is_some() as u64);
+        rec.count("faults.quota_configured", case.quota.is_some_and(|k| k != u64::MAX) as u64);
         rec.count("clock.reads", out.clock_reads);
         for (site, st) in &out.sched.sites {
             let site = site.replace('.', "_");
